@@ -159,9 +159,28 @@ def run(tier, seed, model):
     RecProxy = api.ThreadedVNCClientProxy
     saved_reactor, saved_fc = api.reactor, api.factory_connect
     api.reactor = FakeReactor()
-    api.factory_connect = lambda factory, host, port, family: seen.append((FAM.get(family, family), host, port))
+    # ... and what the connector itself builds (the real factory_connect runs; the endpoints are recorders)
+    from twisted.internet.defer import Deferred
+    from vncdotool import client as vclient
+    endpoints = []
+
+    class RecEndpoint:
+        def __init__(self, kind, *a):
+            endpoints.append((kind,) + a)
+
+        def connect(self, factory):
+            return Deferred()
+    saved_eps = (vclient.HostnameEndpoint, vclient.UNIXClientEndpoint)
+    vclient.HostnameEndpoint = lambda reactor, host, port, *a, **kw: RecEndpoint("tcp", host, port)
+    vclient.UNIXClientEndpoint = lambda reactor, path, *a, **kw: RecEndpoint("unix", path)
+    real_fc = vclient.factory_connect
+
+    def rec_fc(factory, host, port, family):
+        seen.append((FAM.get(family, family), host, port))
+        real_fc(factory, host, port, family)
+    api.factory_connect = rec_fc
     try:
-        extra = [":3", "::6001", "nas.example.org", "vnc-lab:2", "c::5901", "vnc", "n:1", "v.example:0", "/" + "nonexistent/vnc.sock", sockpath]
+        extra = ["localhost", "LOCALHOST:2", "Localhost::5901", "ip6-localhost", ":3", "::6001", "nas.example.org", "vnc-lab:2", "c::5901", "vnc", "n:1", "v.example:0", "/" + "nonexistent/vnc.sock", sockpath]
         pool = [(s_, e) for s_, e, _k in cases if isinstance(e, tuple)]
         sample = rng.sample(pool, min(250, len(pool))) + [(x, None) for x in extra]
         for srv, exp in sample:
@@ -170,11 +189,17 @@ def run(tier, seed, model):
                 if exp[0] == "error":
                     continue
             seen.clear()
+            endpoints.clear()
             try:
                 api.connect(srv, None, api.VNCDoToolFactory, RecProxy, None)
                 got = seen[0] if seen else ("no-connect",)
             except Exception as e:  # noqa: BLE001
                 got = ("error", type(e).__name__)
+            want_ep = [("unix", exp[1])] if exp[0] == 1 else [("tcp", exp[1], exp[2])]
+            if tuple(got) == tuple(exp) and endpoints != want_ep:
+                camp.oracle_failures.append({"kind": "oracle", "property": "C20", "case": {"server": srv, "expected": list(exp), "api": True},
+                                             "what": f"api.connect({srv!r}): the connector was built for {endpoints}, the documented grammar says {want_ep}"})
+                break
             camp.evaluations += 1
             camp.count("api.connect")
             camp.nontrivial.add(("api", srv))
@@ -184,6 +209,7 @@ def run(tier, seed, model):
                 break
     finally:
         api.reactor, api.factory_connect = saved_reactor, saved_fc
+        vclient.HostnameEndpoint, vclient.UNIXClientEndpoint = saved_eps
     # --- the file system may change between two calls: "UNIX for an existing socket path" is about NOW
     hist = os.path.join(tmp, "later.sock")
     steps = [("before it exists", False), ("after it was created", True), ("asked again", True), ("after it was removed", False),
